@@ -26,7 +26,11 @@ for pid in sorted(props.PROPS):
         },
         'level_note': 'Not decided: %s Trusted base: Python semantics of with/generators/contextmanager; SQLite '
                       'semantics (BEGIN IMMEDIATE, WAL atomic commit, triggers, NULL logic); no monkey patching, Disk '
-                      'subclasses other than JSONDisk out of scope; the frozen role tables of DESIGN Appendix A.'
+                      'subclasses other than JSONDisk out of scope; the role tables of DESIGN Appendix A (private helpers '
+                      'are found by use, not by name). Exit codes: 0 held, 1 + VIOLATION line, 2 + ANALYSIS-ERROR when '
+                      'the analysis cannot vouch for the tree (vanished anchor, or constructs outside the modelled '
+                      'subset such as namedtuple rows / private classes in core / unknown decorators: verdict withheld, '
+                      'DESIGN section 7).'
                       % sp['not_decided'],
         'technique': 'static analysis: ' + sp['technique'],
     })
